@@ -15,4 +15,4 @@ SEM_ASSUMPTIONS = [
 ]
 SEM_LEMMAS = ['atom_ignores_types', 'dom_ignores_types', 'ev_frame', 'dom_frame', 'empty_test_sem',
               'ev_ignores_types', 'equiv_types', 'equiv_sym', 'equiv_trans', 'all_cong', 'any_cong', 'all_and',
-              'all_const', 'all_neg', 'conj_snoc', 'conj_append', 'conj_unit', 'conj_last', 'conj_last_all']
+              'all_const', 'all_neg', 'conj_snoc', 'conj_append', 'conj_unit', 'conj_last']
